@@ -567,8 +567,33 @@ class Producers:
             return frozenset(out)
         if k == "match":
             out = set()
+            cls = self.classifier_of(e["expr"], f)
             for arm in e["arms"]:
                 env2 = self.bind_arm(arm["pat"], e["expr"], f, env, stack, depth)
+                if cls is not None:
+                    # `match identifier_defect(&name) { Some(Defect::ReservedWord) => .., None => name }`: in each arm the classified variable has
+                    # the defects its variants stand for, and none of the other classified ones
+                    var, table = cls
+                    import json as _json
+                    ptxt = _json.dumps(arm["pat"])
+                    here = {hz for vn, hz in table.items() if re.search(r'"%s"\]' % re.escape(vn), ptxt)}
+                    cur = set(env[var]) if var in env and isinstance(env[var], frozenset) else set(self.expr({"k": "path", "segs": [var]}, f, env, stack, depth + 1))
+                    wild = (arm["pat"].get("k") == "wild" or (arm["pat"].get("k") == "ident" and re.match(r"[a-z_]", arm["pat"].get("name") or "_"))) and not here
+                    if not wild:
+                        if here == {"reserved"}:
+                            env2[var] = frozenset(["reserved"])
+                        elif here == {"empty"}:
+                            env2[var] = frozenset(cur & {"empty"})
+                            # `conv(y)` is empty only when y has no word characters (separators only): y keeps at most `empty`
+                            vinit = self._let_init(f, var)
+                            if vinit is not None and vinit.get("k") == "mcall" and vinit["method"] in ("apply_naming_convention", "apply_to_field", "apply_to_variant") and vinit["args"]:
+                                y = vinit["args"][0]
+                                while y.get("k") in ("ref", "paren"):
+                                    y = y["expr"]
+                                if y.get("k") == "path" and len(y["segs"]) == 1:
+                                    env2[y["segs"][0]] = frozenset(set(self.expr(y, f, env, stack, depth + 1)) & {"empty"})
+                        else:
+                            env2[var] = frozenset((cur - set(table.values())) | here)
                 out |= self.expr(arm["body"], f, env2, stack, depth + 1)
             return frozenset(out)
         if k == "index":
@@ -738,6 +763,56 @@ class Producers:
         if k == "path":
             return NONE   # enum constant / const path
         return UNKNOWN
+
+    def classifier_of(self, subj, f):
+        """`classify(&v)` where classify is a free function of the crate that sorts its argument into the variants of a field-less enum by the
+        recognised name guards: -> (v, {variant name: hazard}) or None.  The table is read off the classifier's own arms: the arm for the empty
+        text (`chars().next()` is None / `is_empty()`), the arm guarded by a leading-digit test, the arm guarded by the reserved-word test."""
+        while isinstance(subj, dict) and subj.get("k") in ("paren", "ref"):
+            subj = subj["expr"]
+        if not (isinstance(subj, dict) and subj.get("k") == "call" and subj["func"].get("k") == "path" and len(subj["args"]) == 1):
+            return None
+        a = subj["args"][0]
+        while a.get("k") in ("ref", "paren") or (a.get("k") == "mcall" and a["method"] in ("as_str", "as_ref")):
+            a = a["expr"] if a.get("k") in ("ref", "paren") else a["recv"]
+        if not (a.get("k") == "path" and len(a["segs"]) == 1):
+            return None
+        gs = [x for x in self.S.fns if x.name == subj["func"]["segs"][-1] and x.body is not None and not x.owner]
+        if len(gs) != 1:
+            return None
+        g = gs[0]
+        prm = [p_["pat"].get("name") for p_ in g.sig.get("params", []) if p_.get("pat") and not p_.get("self")]
+        if len(prm) != 1 or len(g.body) != 1 or g.body[0].get("k") != "expr":
+            return None
+        top = g.body[0]["e"]
+        if top.get("k") != "match":
+            return None
+        table = {}
+        scrut = expr_text(top["expr"]).replace(" ", "")
+        for arm in top["arms"]:
+            body = arm["body"]
+            vm = re.search(r"(\w+)\s*\)?\s*$", expr_text(body).strip())
+            vname = vm.group(1) if vm else None
+            if not vname or vname in ("None",):
+                continue
+            ptxt = expr_text({"k": "path", "segs": ["_"]}) if False else str(arm["pat"])
+            gd = arm.get("guard")
+            haz = None
+            if gd is not None:
+                gt = expr_text(gd)
+                if re.search(r"is_ascii_digit\(\)|is_numeric\(\)|is_digit\(", gt):
+                    haz = "leaddigit"
+                else:
+                    gg = self.guard_of(gd, g)
+                    if gg is not None and gg[0] == prm[0] and len(gg[1]) == 1:
+                        haz = next(iter(gg[1]))
+            elif scrut.endswith(".chars().next()") and re.search(r"'None'", ptxt) and "Some" not in ptxt:
+                haz = "empty"
+            if haz in ("empty", "leaddigit", "reserved"):
+                table[vname] = haz
+        if len(table) < 2:
+            return None
+        return (a["segs"][0], table)
 
     def guard_of(self, c, f):
         """(variable, hazards excluded when the condition is false) for the two recognised guards"""
